@@ -41,6 +41,7 @@ from props import PROPS  # noqa: E402
 
 ENV = dict(os.environ)
 ENV["CARGO_NET_OFFLINE"] = "true"
+PLANT = ENV.pop("AGV_PLANT", None)
 
 
 def log(*a):
@@ -173,7 +174,7 @@ def run_unit(unit, seed, tier, timeout):
     mod = os.path.join(WORK, f"{unit}.{tier}.{os.getpid()}.model.jsonl")
     t = time.time()
     p = subprocess.run([HBIN, unit, "--seed", str(seed), "--tier", tier, "--out", ops],
-                       env=ENV, stdout=subprocess.PIPE, stderr=subprocess.PIPE, text=True, timeout=timeout)
+                       env=(dict(ENV, AGV_PLANT=PLANT) if PLANT else ENV), stdout=subprocess.PIPE, stderr=subprocess.PIPE, text=True, timeout=timeout)
     if p.returncode != 0:
         return None, None, f"harness unit {unit} rc={p.returncode}: {p.stderr[-2000:]}"
     t1 = time.time()
@@ -261,6 +262,8 @@ def main():
     ap.add_argument("--tier", default=os.environ.get("VERIF_TIER", "quick"))
     ap.add_argument("--seed", type=int, default=int(os.environ.get("VERIF_SEED", "1")))
     ap.add_argument("--replay")
+    ap.add_argument("--selftest", action="store_true",
+                    help="plant a corrupted implementation result in every unit and expect the pipeline to report it")
     args = ap.parse_args()
     pid = args.pid
     if pid not in PROPS:
@@ -269,6 +272,17 @@ def main():
     if args.replay:
         return replay(pid, args.replay)
     cfg = PROPS[pid]
+    if args.selftest:
+        # the same pipeline with one corrupted op per unit: it must end in a VIOLATION
+        env = dict(os.environ, AGV_PLANT="7")
+        r = subprocess.run([sys.executable, os.path.abspath(__file__), pid, "--tier", "quick", "--seed", str(args.seed)],
+                           env=env, stdout=subprocess.PIPE, stderr=subprocess.DEVNULL, text=True)
+        ok = r.returncode == 1 and "VIOLATION" in r.stdout
+        print(("SELFTEST-OK" if ok else "SELFTEST-FAILED") + f" property={pid}: planted disagreement " + ("was reported" if ok else "was NOT reported"))
+        # the planted run rewrote the evidence file: restore it with a clean run
+        subprocess.run([sys.executable, os.path.abspath(__file__), pid, "--tier", "quick", "--seed", str(args.seed)],
+                       stdout=subprocess.DEVNULL, stderr=subprocess.DEVNULL)
+        return 0 if ok else 2
     tier = "thorough" if args.tier == "thorough" else "quick"
     t0 = time.time()
     os.makedirs(WORK, exist_ok=True)
